@@ -157,7 +157,9 @@ def handle (j : Json) : Except String Json := do
       let op ← parseSessOp o
       pure (i, op)
     let w0 : World Float := ⟨names.map fun n => ⟨n, none⟩, []⟩
-    pure (Json.mkObj [("files", jArr ((wtrace geF w0 ops).map filesJson))])
+    let sortedNames := fun (d : Files) => ((d.map (·.1)).toArray.qsort (· < ·)).toList
+    pure (Json.mkObj [("files", jArr ((wtrace geF w0 ops).map filesJson)),
+                      ("file_names", jStrs ((sortedNames (wrun geF w0 ops).files).map iterFileName))])
   | "session" =>
     let name ← getStr j "name"
     let ops ← (← getArr j "ops").toList.mapM parseSessOp
